@@ -34,6 +34,7 @@ import PV.Model.BufStream
 import PV.Model.Tools2
 import PV.Model.CleaningThresholds
 import PV.Model.Pool
+import PV.Model.MVocab
 /-
 One function per unit: `List String` (the operation's arguments) to one output line.
 -/
@@ -740,6 +741,25 @@ def poolU (op : String) (args : List String) : String :=
         s!"ok {String.join (outs.map (· ++ " "))}| pages={pg} cur={h.pool.cur} intact"
   | _ => "bad-op"
 
+/-- util::MutableVocab: FindOrInsert every word, then Find every word (harness op `mvocab.run`); `spec.run` = first-occurrence ids. -/
+def mvocabU (op : String) (args : List String) : String :=
+  match args.mapM unhex with
+  | none => "bad-op"
+  | some ws =>
+    let show_ (l : List Nat) := String.join (l.map (fun n => " " ++ toString n))
+    match op with
+    | "run" =>
+      match PV.MVocab.insertAll PV.MVocab.init ws with
+      | none => "ERR:table"
+      | some (ids, v) =>
+        match PV.MVocab.findAll v ws with
+        | none => "ERR:table"
+        | some fs => s!"ok{show_ ids} |{show_ fs} size={v.strings.length}"
+    | "spec.run" =>
+      let r := PV.MVocab.specInsertAll [] ws
+      s!"ok{show_ r.1} |{show_ (ws.map (PV.MVocab.specFind r.2))} size={r.2.length + 1}"
+    | _ => "bad-op"
+
 def dispatch (line : String) : String :=
   match words line with
   | [] => "bad-op"
@@ -772,6 +792,8 @@ def dispatch (line : String) : String :=
     | ["bstream", op] => bstreamU op args
     | ["table", op] => table op args
     | ["pool", op] => poolU op args
+    | ["mvocab", op] => mvocabU op args
+    | ["mvocab", "spec", op] => mvocabU ("spec." ++ op) args
     | ["table", "spec", op] => table ("spec." ++ op) args
     | ["b64", "spec", op] => b64 ("spec." ++ op) args
     | _ => "bad-op"
